@@ -94,13 +94,24 @@ def py_split(n, ratio, mode, perm):
     return (sel, rest) if inv else (rest, sel)
 
 
+def _attempt(f):
+    try:
+        return f()
+    except Exception as e:  # noqa
+        return type(e).__name__
+
+
 def batcher_case(ctx, drv_reqs, case):
-    """run the real SimpleBatcher for `case`; returns (impl_view, request for the model)"""
+    """run the real SimpleBatcher for `case`; returns (impl_view, request for the model).  Every observable is either its
+    value or the name of the exception it raised (batch_size 0 / negative reach range() and the len() builtin).
+    `rng_form`: the seed as int or as a fresh np.random.Generator; `abandon` = j: before the recorded epochs one epoch is
+    started, j batches are taken and the iterator is dropped (the epochs after it must be complete all the same)."""
     import numpy as np
     from quantem.diffractive_imaging.ptycho_utils import SimpleBatcher
     from qv.driver import f2b
     n, b, ratio, mode, seed, shuffle = case["n"], case["b"], case["ratio"], case["mode"], case["seed"], case["shuffle"]
-    B = SimpleBatcher(n, b, shuffle=shuffle, rng=seed, val_ratio=ratio, val_mode=mode)
+    rng_arg = np.random.default_rng(seed) if case.get("rng_form") == "np_generator" else seed
+    B = SimpleBatcher(n, b, shuffle=shuffle, rng=rng_arg, val_ratio=ratio, val_mode=mode)
     train = [int(x) for x in B.train_indices]
     val = [int(x) for x in B.val_indices]
     view = {"train": train, "val": val}
@@ -110,30 +121,31 @@ def batcher_case(ctx, drv_reqs, case):
     if py_nval(n, ratio) > 0 and mode == "random":
         perm = [int(x) for x in g.permutation(np.arange(n))]
     orders = []
-    eff_b = n if b is None else b
-    if eff_b == 0:
+    if case.get("abandon"):
+        it = iter(B)
+        for _ in range(case["abandon"]):
+            if next(it, None) is None:
+                break
+        it.close()
+        if shuffle:
+            g.permutation(B.train_indices)       # the abandoned epoch drew its permutation at the first next()
+    epochs = []
+    for _ in range(2):
+        orders.append([int(x) for x in g.permutation(B.train_indices)] if shuffle else list(train))
+        ep = []
         try:
-            for _ in B:     # (list(B) would call __len__ first as a length hint)
-                pass
-            view["iter"] = "no-error"
+            for batch in B:     # (list(B) would call __len__ first as a length hint)
+                ep.append([int(x) for x in batch])
         except Exception as e:  # noqa
-            view["iter"] = type(e).__name__
-        try:
-            len(B)
-            view["len"] = "no-error"
-        except Exception as e:  # noqa
-            view["len"] = type(e).__name__
-    else:
-        epochs = []
-        for _ in range(2):
-            epochs.append([[int(x) for x in batch] for batch in B])
-            orders.append([int(x) for x in g.permutation(B.train_indices)] if shuffle else list(train))
-        view["epochs"] = epochs
-        view["len"] = len(B)
-        view["val_batches"] = [[int(x) for x in batch] for batch in B.iter_val()]
-        view["val_len"] = B.val_len()
-        view["has_validation"] = bool(B.has_validation)
-    req = {"op": "batcher", "n": n, "ratio": f2b(ratio), "mode": mode, "perm": perm, "b": eff_b, "orders": orders}
+            epochs = type(e).__name__
+            break
+        epochs.append(ep)
+    view["epochs"] = epochs
+    view["len"] = _attempt(lambda: len(B))
+    view["val_batches"] = _attempt(lambda: [[int(x) for x in batch] for batch in B.iter_val()])
+    view["val_len"] = _attempt(lambda: int(B.val_len()))
+    view["has_validation"] = bool(B.has_validation)
+    req = {"op": "batcher_py", "n": n, "ratio": f2b(ratio), "mode": mode, "perm": perm, "b": b, "orders": orders}
     return view, req
 
 
@@ -147,9 +159,9 @@ def batcher_predicate(ctx, case, view):
                       observed={"train": train, "val": val, "in_both": both,
                                 "missing": sorted(set(range(n)) - set(train) - set(val))},
                       required="disjoint, duplicate free, union = 0..n-1")
-    if "epochs" not in view:
-        return
     eff_b = n if b is None else b
+    if eff_b < 1 or not isinstance(view["epochs"], list):
+        return          # batch sizes < 1 are outside the property's quantifier (compared with the model only)
     for ep in view["epochs"]:
         flat = [x for batch in ep for x in batch]
         if sorted(flat) != sorted(train):
@@ -170,6 +182,20 @@ def batcher_predicate(ctx, case, view):
         ctx.pred_fail("has-validation", "has_validation inconsistent with val_indices", case, observed=view["has_validation"], required=len(val) > 0)
 
 
+def bseed(rng):
+    """seed of a batcher case: 0 (falsy!), 1, a value >= 2**32, or a random 30-bit value"""
+    return rng.weighted([(0, 3), (1, 1), ((1 << 32) + 5, 1), (rng.below(1 << 30), 25)])
+
+
+def decorate_batcher_case(rng, c):
+    """input-form classes with the logical case unchanged: seed as int / np.random.Generator; an abandoned epoch first"""
+    if rng.chance(0.15):
+        c["rng_form"] = "np_generator"
+    if rng.chance(0.12):
+        c["abandon"] = rng.randint(1, 3)
+    return c
+
+
 def gen_batcher_cases(ctx):
     """every (n <= 40, b <= 45, ratio k/16, mode) in both tiers (seed and shuffle flag drawn per case);
     plus sampled larger n (quick) / every (n <= 200, b <= n+5) with sampled ratios (thorough)"""
@@ -180,27 +206,27 @@ def gen_batcher_cases(ctx):
         for b in range(1, 46):
             for r in dy:
                 for mode in ("grid", "random"):
-                    cases.append({"n": n, "b": b, "ratio": r, "mode": mode, "seed": rng.below(1 << 30), "shuffle": rng.chance(0.85)})
+                    cases.append(decorate_batcher_case(rng, {"n": n, "b": b, "ratio": r, "mode": mode, "seed": bseed(rng), "shuffle": rng.chance(0.85)}))
     for n in range(0, 41):      # non-dyadic ratios (n*ratio is rounded in binary64 before round-half-even)
         for r in RATIOS_EXTRA + [rng.random(), rng.random()]:
-            cases.append({"n": n, "b": rng.randint(1, 45), "ratio": r, "mode": rng.choice(["grid", "random"]),
-                          "seed": rng.below(1 << 30), "shuffle": rng.chance(0.85)})
+            cases.append(decorate_batcher_case(rng, {"n": n, "b": rng.randint(1, 45), "ratio": r, "mode": rng.choice(["grid", "random"]),
+                                                     "seed": bseed(rng), "shuffle": rng.chance(0.85)}))
     if ctx.thorough():
         for n in range(41, 201):
             for b in range(1, n + 6):
                 for r in rng.sample(dy + RATIOS_EXTRA, 2) + [rng.random()]:
                     cases.append({"n": n, "b": b, "ratio": r, "mode": rng.choice(["grid", "random"]),
-                                  "seed": rng.below(1 << 30), "shuffle": rng.chance(0.8)})
+                                  "seed": bseed(rng), "shuffle": rng.chance(0.8)})
     else:
         for _ in range(ctx.n(300, 0)):
             n = rng.randint(41, 200)
             b = rng.choice([1, 2, 7, rng.randint(1, n), n - 1, n, n + 1])
-            cases.append({"n": n, "b": max(1, b), "ratio": rng.choice(dy + RATIOS_EXTRA + [rng.random()]), "mode": rng.choice(["grid", "random"]),
-                          "seed": rng.below(1 << 30), "shuffle": rng.chance(0.8)})
+            cases.append(decorate_batcher_case(rng, {"n": n, "b": max(1, b), "ratio": rng.choice(dy + RATIOS_EXTRA + [rng.random()]), "mode": rng.choice(["grid", "random"]),
+                                                     "seed": bseed(rng), "shuffle": rng.chance(0.8)}))
     # malformed / edge stream: ratios outside [0,1), batch_size None, batch_size 0, unknown mode string
     for _ in range(ctx.n(120, 600)):
         n = rng.randint(0, 30)
-        kind = rng.weighted([("bad_ratio", 3), ("none_batch", 3), ("zero_batch", 1), ("odd_mode", 2)])
+        kind = rng.weighted([("bad_ratio", 3), ("none_batch", 3), ("zero_batch", 1), ("neg_batch", 2), ("odd_mode", 2), ("int_ratio", 1)])
         c = {"n": n, "b": rng.randint(1, 12), "ratio": rng.choice(dy), "mode": rng.choice(["grid", "random"]),
              "seed": rng.below(1 << 30), "shuffle": rng.chance(0.8), "kind": kind}
         if kind == "bad_ratio":
@@ -209,6 +235,10 @@ def gen_batcher_cases(ctx):
             c["b"] = None
         elif kind == "zero_batch":
             c["b"] = 0
+        elif kind == "neg_batch":       # range(0, n, b) is empty; ceil(n / b) <= 0: len() raises unless it is 0; val_len() is negative
+            c["b"] = -rng.choice([1, 2, 3, 7, n + 1, max(1, n)])
+        elif kind == "int_ratio":       # val_ratio handed over as an int / bool (0, 1, False, True)
+            c["ratio"] = rng.choice([0, 1])
         else:
             c["mode"] = rng.choice(["Grid", "RANDOM", "regular", ""])
         cases.append(c)
@@ -247,7 +277,9 @@ def run_batcher_stream(ctx, drv, cases):
         ctx.dist[f"batcher:mode={c['mode'] if c['mode'] in ('grid', 'random') else 'other'}"] += 1
         nval = len(v["val"])
         ctx.dist["batcher:n_val=" + ("0" if nval == 0 else "all" if nval == n else "part")] += 1
-        if b not in (None, 0) and n > 0:
+        if c.get("rng_form") or c.get("abandon") or c["seed"] == 0:
+            ctx.dist["batcher:" + ("seed=0 " if c["seed"] == 0 else "") + ("generator-form " if c.get("rng_form") else "") + ("abandoned-epoch-first" if c.get("abandon") else "")] += 1
+        if b is not None and b > 0 and n > 0:
             ctx.dist["batcher:b " + ("=1" if b == 1 else ">n_train" if b > len(v["train"]) else "divides" if len(v["train"]) % b == 0 else "non-dividing")] += 1
         if n >= 2:
             ctx.mark(("batcher", n, b, nval, c["mode"], c["shuffle"]))
@@ -395,10 +427,12 @@ def divisors(n):
 
 
 def pick_seed(rng):
-    """(seed, form): small ints, values >= 2**32, >= 2**64 and 128-bit entropies, through every form rng= accepts"""
+    """(seed, form): 0, small ints, values >= 2**32, >= 2**64 and 128-bit entropies, through every form rng= accepts"""
     form = rng.weighted([("int", 4), ("np_generator", 3), ("torch_generator", 2)])
-    size = rng.weighted([("small", 3), ("ge32", 3), ("ge64", 2 if form != "torch_generator" else 0), ("bits128", 2 if form != "torch_generator" else 0)])
-    if size == "small":
+    size = rng.weighted([("zero", 2), ("small", 3), ("ge32", 3), ("ge64", 2 if form != "torch_generator" else 0), ("bits128", 2 if form != "torch_generator" else 0)])
+    if size == "zero":
+        seed = 0            # a legitimate seed that is falsy (`if seed:` / `seed or default` would treat it as "no seed")
+    elif size == "small":
         seed = rng.below(1 << 20)
     elif size == "ge32":
         seed = (1 << rng.randint(32, 62)) + rng.below(1 << 20)
@@ -645,6 +679,7 @@ def determinism_case(ctx, cfg, b):
     ctx.count()
     ctx.mark(("determinism", tuple(cfg["scan"]), tuple(cfg["roi"]), cfg["loss_type"], b, cfg["val_ratio"], cfg["val_mode"], cfg["num_probes"]))
     ctx.dist["determinism:cases"] += 1
+    ctx.dist[f"determinism:seed={cfg.get('seed_size')}/{cfg.get('rng_form')}"] += 1
     if len(a) != cfg["iters"] or not all(math.isfinite(x) for x in a):
         ctx.pred_fail("loss-history-shape", "iter_losses does not hold one finite value per iteration", case, observed=a, required=f"{cfg['iters']} finite values")
     if a != c or av != cv:
@@ -657,6 +692,33 @@ def determinism_case(ctx, cfg, b):
     if len(ctx.extra["determinism_examples"]) < 2:
         ctx.extra["determinism_examples"].append({"cfg": cfg, "b": b, "iter_losses": a})
     ctx.stat_max("determinism_loss_decrease_seen", 1.0 if a[-1] < a[0] else 0.0)
+
+
+def run_schedule_predicate(ctx, case, N, bb, sched, vals, what, key="epoch-not-exactly-once-in-reconstruct"):
+    """the schedule clauses on ONE reconstruct call of the real code: `sched[k]` = training batches of its k-th iteration,
+    `vals[k]` = validation batches.  (Every call builds a new batcher — in random mode a new split — so the reference sets are
+    those of this very call.)  First epoch + validation pass partition all patterns; every epoch visits the training set
+    exactly once, in ceil(n_train/b) non-empty batches of at most b patterns."""
+    if not sched:
+        return True
+    train = sorted(i for batch in sched[0] for i in batch)
+    val = [i for batch in (vals[0] if vals else []) for i in batch]
+    if sorted(train + val) != list(range(N)):
+        ctx.pred_fail(key, f"{what}: the first epoch and the validation pass do not partition all patterns", case,
+                      observed={"train_visited": train, "val_visited": val}, required=f"a partition of range({N})")
+        return False
+    nb = -(-len(train) // bb)
+    for k, ep in enumerate(sched):
+        flat = [i for batch in ep for i in batch]
+        if sorted(flat) != train or len(ep) != nb or any(len(x) == 0 or len(x) > bb for x in ep):
+            ctx.pred_fail(key, f"{what}: an epoch does not visit every training pattern exactly once in ceil(n_train/b) batches", dict(case, epoch=k),
+                          observed={"batches": ep}, required={"train": train, "number_of_batches": nb, "batch_size": bb})
+            return False
+        if vals and k < len(vals) and sorted(i for batch in vals[k] for i in batch) != sorted(val):
+            ctx.pred_fail(key, f"{what}: a validation pass does not visit every validation pattern exactly once", dict(case, epoch=k),
+                          observed={"val_batches": vals[k]}, required={"val": val})
+            return False
+    return True
 
 
 def history_case(ctx, drv, cfg, b):
@@ -688,13 +750,19 @@ def history_case(ctx, drv, cfg, b):
         r["route"] = route
         return p, r
 
-    def go(p, reset, n_it, keep=False, first=False, route=None):
+    def go(p, reset, n_it, keep=False, first=False, route=None, bb=None):
+        bb = b if bb is None else bb      # (continuations may use another batch size than the reset runs)
         if b_attr:
-            p.batch_size = b          # batch size through the attribute, reconstruct(batch_size=None)
-        rec = pt.record_batches(p, None if b_attr else b, num_iters=n_it, freeze=False, reset=reset, loss_type=cfg["loss_type"],
+            p.batch_size = bb         # batch size through the attribute, reconstruct(batch_size=None)
+        rec = pt.record_batches(p, None if b_attr else bb, num_iters=n_it, freeze=False, reset=reset, loss_type=cfg["loss_type"],
                                 optimizer_params=pt.sgd_params(cfg["lr"], cfg["lr"]), keep_optimizers=(not reset) and not first)
         sched = [(e["iter"], e["val"], e["indices"]) for e in rec]
         n_hist = len(p.iter_losses)
+        its = sorted({e["iter"] for e in rec})
+        run_schedule_predicate(ctx, dict(case, call=len(log), call_b=bb, call_reset=reset, call_route=route or "arg"), int(p.dset.num_gpts), bb,
+                               [[e["indices"] for e in rec if not e["val"] and e["iter"] == t] for t in its],
+                               [[e["indices"] for e in rec if e["val"] and e["iter"] == t] for t in its],
+                               f"call #{len(log)} of the history (reset={reset}, batch_size={bb})")
         if keep:
             consumed, vals = 0, []
             for e in rec:
@@ -703,12 +771,13 @@ def history_case(ctx, drv, cfg, b):
                 else:
                     consumed += 1
             it0 = min([e["iter"] for e in rec], default=0)
-            log.append({"reset": reset, "route": route or "arg", "iters": n_it, "b": b, "train_losses": [f2b(e["loss"]) for e in rec if not e["val"]], "val": vals,
+            log.append({"reset": reset, "route": route or "arg", "iters": n_it, "b": bb, "gen_state": p.rng.bit_generator.state["state"], "train_losses": [f2b(e["loss"]) for e in rec if not e["val"]], "val": vals,
                         "impl": {"schedule": [[e["indices"] for e in rec if not e["val"] and e["iter"] == it0 + k] for k in range(n_it)],
                                  "iter_losses": [float(x) for x in p.iter_losses], "val_losses": [float(x) for x in p.val_iter_losses]}})
         return {"losses": [float(x) for x in p.iter_losses][n_hist - n_it:], "val": [float(x) for x in p.val_iter_losses][-n_it:] if len(p.val_iter_losses) else [],
                 "sched": [[it, v, idx] for it, v, idx in sched], "n_hist": n_hist}
     case = {"stream": "history", "cfg": cfg, "b": b}
+    cont_b = cfg.get("cont_b")
     with pt.no_gc():
         p = build(cfg)
         first_reset = cfg.get("first_reset", True)       # False: the very first run on the fresh object is made WITHOUT reset
@@ -718,7 +787,7 @@ def history_case(ctx, drv, cfg, b):
             p, r = reset_and_go(p, iters)                     # fresh object → run → reset run: must equal the first run
             runs.append((0, r))
         for k in cfg.get("cont", [1, 2]):
-            cont = go(p, False, k, keep=True)
+            cont = go(p, False, k, keep=True, bb=cont_b)
             if cont["n_hist"] != iters + k:
                 ctx.pred_fail("continue-history-length", "continuing without reset does not append to the loss history", dict(case, k=k),
                               observed=cont["n_hist"], required=iters + k)
@@ -779,8 +848,12 @@ def history_case(ctx, drv, cfg, b):
         for _ in range(r["iters"]):
             table.setdefault(pos, [int(x) for x in twin.permutation(np.asarray(tr, dtype=int))])
             pos += 1
+        # internal stage: the object's NumPy generator after the call is exactly where the modelled number of draws leaves it
+        if twin.bit_generator.state["state"] != r["gen_state"]:
+            ctx.disagree("generator-state", dict(case, run=log.index(r)), "state after the modelled draws (split draw + one permutation per iteration)",
+                         "a different generator state", note=f"call #{log.index(r)} (reset={r['reset']}, route={r.get('route')}): p.rng is not where the model's draw count leaves a twin generator")
     m = drv.ask({"op": "history", "n": N, "ratio": f2b(cfg["val_ratio"]), "mode": cfg["val_mode"], "seed": 1,
-                 "table": [table[i] for i in range(len(table))], "runs": [{k: v for k, v in r.items() if k != "impl"} for r in log]})
+                 "table": [table[i] for i in range(len(table))], "runs": [{k: v for k, v in r.items() if k not in ("impl", "gen_state")} for r in log]})
     if "ok" not in m:
         raise HarnessError(f"driver error {m}")
     for j, (r, mo) in enumerate(zip(log, m["ok"])):
@@ -894,6 +967,267 @@ def rejected_case(ctx, drv, cfg, b, rej, follow_reset):
     ctx.sample({"stream": "rejected", "rejected_call": [kind, value], "outcome": outcome, "b": b, "follow_reset": follow_reset, "next_run_first_epoch": r1["sched"][0]}, limit=8)
 
 
+# ---------------------------------------------------------------------------------------
+# stream (f): exception safety of the loop itself — a reconstruct() call interrupted in the MIDDLE of an epoch
+
+EXC_KINDS = {"RuntimeError": RuntimeError, "KeyboardInterrupt": KeyboardInterrupt, "MemoryError": MemoryError, "FloatingPointError": FloatingPointError}
+
+
+class Instrument:
+    """instance-level wrappers (nothing in /repo is changed) around callees of `reconstruct`: `dset.forward` (records the
+    indices of every batch that was yielded; raises at the chosen training / validation batch), `error_estimate` (records the
+    loss), `backward` (alternative raise point: after the loss of the batch was computed), `step_optimizers` (skipped when
+    `freeze`), `step_schedulers` (raise point after the iteration was recorded).  Unlike ptycho_tiny.record_batches the record
+    survives an exception."""
+
+    def __init__(self, p, fault=None, exc="RuntimeError", freeze=False):
+        self.p, self.fault, self.freeze = p, fault, freeze
+        self.exc = EXC_KINDS[exc](f"injected by the C09 harness ({exc})")
+        self.rec, self.base, self.cur = [], None, None
+        self.it, self.tc, self.vc = -1, 0, 0
+
+    def _hit(self, kind, it, pos, where):
+        f = self.fault
+        return f is not None and f["kind"] == kind and f["iter"] == it and f.get("pos", 0) == pos and f.get("where", "forward") == where
+
+    def __enter__(self):
+        import torch
+        p = self.p
+        real_fwd, real_err, real_bwd, real_step, real_sched = p.dset.forward, p.error_estimate, p.backward, p.step_optimizers, p.step_schedulers
+
+        def fwd(batch_indices, *a, **k):
+            if self.base is None:
+                self.base = len(p.iter_losses)          # (after the reset of this very call, if any)
+            it = len(p.iter_losses) - self.base
+            if it != self.it:
+                self.it, self.tc, self.vc = it, 0, 0
+            is_val = not torch.is_grad_enabled()
+            pos = self.vc if is_val else self.tc
+            e = {"iter": it, "val": is_val, "indices": [int(x) for x in batch_indices], "loss": None, "done": False}
+            self.rec.append(e)
+            self.cur = (e, it, pos, is_val)
+            if is_val:
+                self.vc += 1
+            else:
+                self.tc += 1
+            if self._hit("val" if is_val else "train", it, pos, "forward"):
+                raise self.exc
+            return real_fwd(batch_indices, *a, **k)
+
+        def err(pred, batch_indices, loss_type="l2_amplitude"):
+            loss, targets = real_err(pred, batch_indices, loss_type=loss_type)
+            e = self.cur[0]
+            e["loss"] = float(loss.detach().double().item())
+            if self.cur[3]:
+                e["done"] = True
+            return loss, targets
+
+        def bwd(*a, **k):
+            _e, it, pos, is_val = self.cur
+            if self._hit("train", it, pos, "backward"):
+                raise self.exc
+            return real_bwd(*a, **k)
+
+        def step():
+            if not self.freeze:
+                real_step()
+            self.cur[0]["done"] = True
+
+        def sched(*a, **k):
+            if self.base is not None and self._hit("after", len(p.iter_losses) - self.base - 1, 0, "forward"):
+                raise self.exc
+            return real_sched(*a, **k)
+        p.dset.forward, p.error_estimate, p.backward, p.step_optimizers, p.step_schedulers = fwd, err, bwd, step, sched
+        return self
+
+    def __exit__(self, *a):
+        p = self.p
+        del p.dset.forward
+        for name in ("error_estimate", "backward", "step_optimizers", "step_schedulers"):
+            delattr(p, name)
+        return False
+
+
+def aborted_case(ctx, drv, cfg, b):
+    """ONE object: A = a valid run; X = a reconstruct() call that is interrupted by an exception from a callee in the middle
+    of an epoch (training batch j >= 0 of iteration i, a validation batch, or after the iteration was recorded; Exception and
+    BaseException kinds; with or without reset; its own batch size) — the caller catches it and carries on; C = a valid
+    reconstruct() WITHOUT reset; D = a reset run through one of the public routes.
+    Property clauses on C and D: every epoch visits every training pattern exactly once, len = batches yielded, every recorded
+    loss is the mean over the batches yielded in that epoch (frozen variant: = the full-batch loss for divisor batch sizes);
+    D reproduces A and a fresh same-seed object bit for bit.  Every call (also X: what it leaves behind) is tied to the model's
+    `reconstructF` (Model/BatcherExt.lean) and the object's NumPy generator to the modelled number of draws."""
+    import numpy as np
+    from props import ptycho_tiny as pt
+    from qv.driver import b2f, f2b
+    ab = cfg["abort"]
+    frozen, iters, lt = ab["frozen"], cfg["iters"], cfg["loss_type"]
+    N = cfg["scan"][0] * cfg["scan"][1]
+    case = {"stream": "aborted", "cfg": cfg, "b": b}
+    log = []
+
+    def note_run(p, rec, reset, route, n_it, bb, fault=None, raised=False):
+        """log entry of one call: what the model needs (losses of the completed batches, validation losses) + the implementation's view"""
+        its = sorted({e["iter"] for e in rec})
+        consumed, vals, tl = 0, [], []
+        for e in rec:
+            if e["val"]:
+                if e["loss"] is not None:
+                    vals.append([consumed, e["indices"][0], f2b(e["loss"])])
+            elif e.get("done", True):
+                consumed += 1
+                tl.append(f2b(e["loss"]))
+        sched = [[e["indices"] for e in rec if not e["val"] and e["iter"] == t] for t in its]
+        if raised and not rec:
+            sched = [[]]
+        log.append({"reset": reset, "route": route, "iters": n_it, "b": bb, "ratio": f2b(cfg["val_ratio"]), "mode": cfg["val_mode"], "fault": fault,
+                    "train_losses": tl, "val": vals, "gen_state": p.rng.bit_generator.state["state"],
+                    "impl": {"schedule": sched, "iter_losses": [float(x) for x in p.iter_losses], "val_losses": [float(x) for x in p.val_iter_losses], "raised": raised}})
+        return its, sched, [[e["indices"] for e in rec if e["val"] and e["iter"] == t] for t in its]
+
+    def valid_run(p, reset, n_it, bb, first=False, route="arg", what=""):
+        if route == "method":
+            p.reset_recon()
+        elif route == "classmethod":
+            from quantem.diffractive_imaging.ptychography import Ptychography
+            p = Ptychography.from_ptychography(p)
+        n0 = 0 if (reset or route != "arg") else len(p.iter_losses)
+        rec = pt.record_batches(p, bb, num_iters=n_it, freeze=frozen, reset=reset and route == "arg", loss_type=lt,
+                                optimizer_params=pt.sgd_params(cfg["lr"], cfg["lr"]), keep_optimizers=(not reset) and route == "arg" and not first)
+        for e in rec:
+            e["iter"] -= n0
+        its, sched, vals = note_run(p, rec, reset and route == "arg", route, n_it, bb)
+        ok = run_schedule_predicate(ctx, dict(case, call=what), N, bb, sched, vals, what, key="epoch-not-exactly-once-after-aborted-call" if what[0] in "CD" else "epoch-not-exactly-once-in-reconstruct")
+        losses = [float(x) for x in p.iter_losses][-n_it:] if n_it else []
+        for k, t in enumerate(its):       # the recorded loss of an epoch is the mean over the batches yielded in that epoch
+            bl = [e["loss"] for e in rec if not e["val"] and e["iter"] == t]
+            want = sum(bl) / max(1, len(bl))
+            if k < len(losses) and abs(losses[k] - want) > 1e-12 * max(1.0, abs(want)):
+                ctx.pred_fail("recorded-loss-not-mean", f"{what}: an iter_losses entry is not the mean of the losses of the batches yielded in that iteration", dict(case, call=what, iteration=k),
+                              observed={"iter_loss": losses[k], "ratio": losses[k] / want if want else None}, required={"mean_of_batch_losses": want, "batches": len(bl)})
+                ok = False
+        return p, {"losses": losses, "val": [float(x) for x in p.val_iter_losses][-n_it:] if len(p.val_iter_losses) else [], "sched": sched, "ok": ok,
+                   "n_hist": len(p.iter_losses)}
+
+    with pt.no_gc():
+        p = build(cfg)
+        n_train = N - py_nval(N, cfg["val_ratio"])
+        # A: frozen variant = ONE full batch (gives the full-batch loss every later divisor epoch must reproduce)
+        bA, itA = (n_train, 1) if frozen else (b, iters)
+        p, A = valid_run(p, ab["first_reset"], itA, bA, first=True, what="A (first valid run)")
+        # X: the interrupted call
+        fault = dict(ab["fault"])
+        ins = Instrument(p, fault, ab["exc"], freeze=frozen)
+        raised = False
+        with ins:
+            try:
+                p.reconstruct(num_iters=ab["iters"], reset=ab["reset"], batch_size=ab["b"], loss_type=lt, constraints={},
+                              optimizer_params=pt.sgd_params(cfg["lr"], cfg["lr"]) if ab["reset"] else None)
+            except BaseException as e:  # noqa
+                if e is not ins.exc:
+                    raise
+                raised = True
+        note_run(p, ins.rec, ab["reset"], "arg", ab["iters"], ab["b"], fault={k: fault[k] for k in ("iter", "kind", "pos")}, raised=raised)
+        ctx.count()
+        ctx.mark(("aborted", tuple(cfg["scan"]), lt, b, ab["b"], cfg["val_ratio"], cfg["val_mode"], fault["kind"], fault["iter"], fault["pos"], fault.get("where"), ab["exc"], ab["reset"], frozen))
+        ctx.dist[f"aborted:fault={fault['kind']}@{fault.get('where', 'forward')},batch={'0' if fault['pos'] == 0 else '>=1'},exc={ab['exc']}"] += 1
+        ctx.dist[f"aborted:frozen={frozen},abort_reset={ab['reset']},val={'0' if cfg['val_ratio'] == 0 else cfg['val_mode']}"] += 1
+        # C: the caller carries on WITHOUT reset
+        try:
+            p, C = valid_run(p, False, 2, b, what="C (valid reconstruct without reset after the interrupted call)")
+        except Exception as e:  # noqa
+            ctx.pred_fail("run-after-aborted-call-raises", f"after a reconstruct() call interrupted by {ab['exc']} (caught) the next reconstruct(reset=False) raises {type(e).__name__}: {str(e)[:120]}", case,
+                          observed=f"{type(e).__name__}: {e}"[:300], required="a completed run")
+            return
+        same_split = cfg["val_ratio"] == 0 or cfg["val_mode"] != "random"      # (random mode: every call draws a new split — another training set, another full-batch loss)
+        if frozen and n_train % b == 0 and C["ok"] and same_split:
+            Lf = A["losses"][-1]
+            for k, x in enumerate(C["losses"]):
+                d = abs(x - Lf) / max(abs(Lf), 1e-6)
+                ctx.stat_max("invariance_after_aborted_call_rel_dev", d)
+                if d > TOL32:
+                    ctx.pred_fail("invariance-recorded-loss-after-aborted-call", f"frozen parameters, batch size {b} divides the {n_train} training patterns: the iter_losses entry of the epoch run after an interrupted call "
+                                  f"differs from the full-batch loss (loss_type={lt})", dict(case, iteration=k), observed={"iter_loss": x, "ratio_to_full": x / Lf if Lf else None}, required={"full_batch_iter_loss": Lf})
+                    break
+        # D: a reset run through the next public route reproduces A
+        try:
+            p, D = valid_run(p, True, itA, bA, route=ab["route"], what=f"D (reset run [{RESET_ROUTES[ab['route']]}] after the interrupted call)")
+        except Exception as e:  # noqa
+            ctx.pred_fail("run-after-aborted-call-raises", f"after a reconstruct() call interrupted by {ab['exc']} (caught) the next reset run [{RESET_ROUTES[ab['route']]}] raises {type(e).__name__}: {str(e)[:120]}", case,
+                          observed=f"{type(e).__name__}: {e}"[:300], required="the first run again")
+            return
+        if D["losses"] != A["losses"] or D["val"] != A["val"] or D["sched"] != A["sched"]:
+            ctx.pred_fail("determinism-reset-after-aborted-call", f"run, interrupted call ({ab['exc']} in {fault['kind']} batch {fault['pos']} of iteration {fault['iter']}), run, reset run [{RESET_ROUTES[ab['route']]}]: "
+                          "the reset run does not reproduce the first run", case, observed={"first": A["losses"], "after_reset": D["losses"], "first_batches": A["sched"][:1], "after_reset_batches": D["sched"][:1]},
+                          required="bit-identical losses and batch schedule")
+        _q, F = valid_run(build(cfg, canonical=True), True, itA, bA, first=True, what="F (fresh same-seed object)")
+        log.pop()           # (F is another object: not part of the history handed to the model)
+        if F["losses"] != A["losses"] or F["sched"] != A["sched"]:
+            ctx.pred_fail("determinism-same-seed", "two objects built with the same seed produced different loss histories / schedules", case,
+                          observed={"run1": A["losses"], "run2": F["losses"]}, required="bit-identical")
+    # ---- correspondence with the model's state machine (reconstructF / resetRecon), call by call
+    twin = None
+    for r in log:
+        if twin is None or r["reset"] or r["route"] != "arg":
+            twin = np.random.default_rng(cfg["rng_seed"])
+        draws, perm = [], []
+        if py_nval(N, cfg["val_ratio"]) > 0 and cfg["val_mode"] == "random":
+            perm = [int(x) for x in twin.permutation(np.arange(N))]
+            draws.append(perm)
+        tr, _va = py_split(N, cfg["val_ratio"], cfg["val_mode"], perm)
+        started = r["iters"]
+        if r["fault"] is not None and r["impl"]["raised"]:
+            started = r["fault"]["iter"] + 1
+        for _ in range(started):
+            draws.append([int(x) for x in twin.permutation(np.asarray(tr, dtype=int))])
+        r["draws"] = draws
+        if twin.bit_generator.state["state"] != r["gen_state"]:
+            ctx.disagree("generator-state", dict(case, run=log.index(r)), f"state after {len(draws)} draws", "a different generator state",
+                         note=f"call #{log.index(r)} (reset={r['reset']}, route={r['route']}, fault={r['fault']}): p.rng is not where the modelled number of draws leaves a twin generator")
+    m = drv.ask({"op": "fhistory", "n": N, "seed": 1, "runs": [{k: v for k, v in r.items() if k not in ("impl", "gen_state")} for r in log]})
+    if "ok" not in m:
+        raise HarnessError(f"driver error {m}")
+    for j, (r, mo) in enumerate(zip(log, m["ok"])):
+        ctx.count()
+        ctx.dist["aborted:model-tie " + ("interrupted call" if r["fault"] else "valid call")] += 1
+        mv = {"schedule": mo["schedule"], "iter_losses": [b2f(x) for x in mo["iter_losses"]], "val_losses": [b2f(x) for x in mo["val_losses"]], "raised": mo["raised"]}
+        if mv != r["impl"] or mo["draws_used"] != len(r["draws"]):
+            ctx.disagree("reconstruct-state-machine-with-faults", dict(case, run=j), dict(mv, draws_used=mo["draws_used"]), dict(r["impl"], draws_used=len(r["draws"])),
+                         note=f"call #{j} (reset={r['reset']}, route={r['route']}, iters={r['iters']}, fault={r['fault']}): yielded batches / iter_losses / val_iter_losses / raised / generator draws after the call")
+    ctx.sample({"stream": "aborted", "fault": fault, "exception": ab["exc"], "abort_call": {"reset": ab["reset"], "b": ab["b"], "iters": ab["iters"]}, "frozen": frozen, "b": b,
+                "history_after_abort": log[1]["impl"]["iter_losses"], "C_losses": C["losses"]}, limit=6)
+
+
+def gen_aborted_cfg(rng, i):
+    """(cfg, b): the interrupted call hits training batch j of iteration it (mostly j >= 1: some batches of the epoch are already done),
+    a validation batch, or the code after the iteration was recorded"""
+    c = gen_history_cfg(rng, i)
+    c.pop("cont_b", None)
+    c["rng_route"], c["val_route"], c["b_route"] = "constructor", "preprocess", "argument"
+    N = c["scan"][0] * c["scan"][1]
+    n_train = N - py_nval(N, c["val_ratio"])
+    n_val = N - n_train
+    frozen = (i % 2 == 0)
+    if frozen:          # divisor batch sizes with at least two batches per epoch
+        divs = [d for d in divisors(n_train) if d < n_train]
+        b, b_ab = rng.choice(divs), rng.choice(divs)
+    else:
+        small = [x for x in (1, 2, 3, 4, 5, 7) if x < n_train] or [1]
+        b, b_ab = rng.choice(small), rng.choice(small)
+    nb = -(-n_train // b_ab)
+    it_ab = rng.randint(1, 3)
+    kind = rng.weighted([("train", 7), ("val", 2 if n_val > 0 else 0), ("after", 1)])
+    fault = {"iter": rng.below(it_ab), "kind": kind, "pos": 0, "where": "forward"}
+    if kind == "train":
+        fault["pos"] = rng.randint(1, nb - 1) if (nb > 1 and rng.chance(0.8)) else 0
+        fault["where"] = rng.choice(["forward", "backward"])
+    elif kind == "val":
+        fault["pos"] = rng.below(-(-n_val // b_ab))
+    c["abort"] = {"frozen": frozen, "first_reset": i % 3 != 0, "reset": i % 4 == 3, "b": b_ab, "iters": it_ab, "fault": fault,
+                  "exc": ["RuntimeError", "KeyboardInterrupt", "MemoryError", "FloatingPointError"][i % 4], "route": ["arg", "method", "classmethod"][i % 3]}
+    return c, b
+
+
 RESET_ROUTES = {"arg": "reconstruct(reset=True)", "method": "reset_recon() then reconstruct()",
                 "classmethod": "Ptychography.from_ptychography(pt) then reconstruct() on the returned object"}
 
@@ -912,11 +1246,15 @@ def gen_history_cfg(rng, i):
     c["val_route"] = "attribute" if i % 4 in (1, 2) else "preprocess"
     c["b_route"] = "attribute" if i % 5 in (0, 3) else "argument"
     if i % 4 == 0:          # the combination that needs most: a seed that does not fit in 32 bit, first run without reset
-        while c["seed_size"] == "small":
+        while c["seed_size"] in ("small", "zero"):
             c["rng_seed"], c["rng_form"], c["seed_size"] = pick_seed(rng)
+    if i % 4 == 2:          # seed 0 in whatever form was drawn
+        c["rng_seed"], c["seed_size"] = 0, "zero"
     c["val_ratio"], c["val_mode"] = [(0.0, "grid"), (0.25, "grid"), (0.3, "random"), (0.0, "grid"), (0.5, "grid"), (0.2, "random")][i % 6]
     c["cont"] = [[1, 2], [2, 1]][i % 2]
     c["iters"] = 2 + (i % 2)
+    if i % 3 != 0:          # reconfigure between runs: the continuations use another batch size than the reset runs
+        c["cont_b"] = [1, 2, 3, 5, 1000][(i // 3) % 5]
     return c
 
 
@@ -933,7 +1271,7 @@ def guarded(ctx, fn, case, *args):
     except Exception as e:  # noqa
         cfg = next((a for a in args if isinstance(a, dict)), None)
         case = dict(case, cfg=cfg)
-        if fn is determinism_case or fn is history_case:
+        if fn is determinism_case or fn is history_case or fn is aborted_case:
             case["b"] = args[-1]
         if fn is rejected_case:
             case.update({"b": args[-3], "rej": list(args[-2]), "follow_reset": args[-1]})
@@ -959,6 +1297,8 @@ def run(ctx):
         rng = ctx.rng.fork(3)
         for i in range(ctx.n(6, 30)):
             cfg = gen_det_cfg(rng)
+            if i % 3 == 1:
+                cfg["rng_seed"], cfg["seed_size"] = 0, "zero"
             n = cfg["scan"][0] * cfg["scan"][1]
             guarded(ctx, determinism_case, {"stream": "determinism"}, ctx, cfg, rng.choice([2, 3, 4, 5, 7, n // 2, n - 1]))
         rng = ctx.rng.fork(4)
@@ -977,6 +1317,10 @@ def run(ctx):
             b = rng.choice([x for x in (2, 3, 4, 5, 7) if x < n_train] or [1])
             rej = rej_order[i % len(rej_order)]
             guarded(ctx, rejected_case, {"stream": "rejected", "rej": list(rej)}, ctx, drv, cfg, b, rej, i % 3 != 2)
+        rng = ctx.rng.fork(8)
+        for i in range(ctx.n(16, 64)):
+            cfg, b = gen_aborted_cfg(rng, i)
+            guarded(ctx, aborted_case, {"stream": "aborted"}, ctx, drv, cfg, b)
         ctx.exhaustive = None
         ctx.extra["exhaustive_note"] = ("both tiers enumerate every (n<=40, b<=45, ratio=k/16, mode) for SimpleBatcher (thorough: also every (n<=200, b<=n+5) with sampled ratios) and every "
                                         "(n<=32 quick / 60 thorough, num_batches<=n+2 | max_batch<=n_max+5) for subdivide_batches; seeds/shuffles are sampled (the theorems cover all permutations)")
@@ -1015,6 +1359,8 @@ def replay(ctx, rep):
             rejected_case(ctx, drv, case["cfg"], case["b"], tuple(case["rej"]), case["follow_reset"])
         elif stream == "history":
             history_case(ctx, drv, case["cfg"], case["b"])
+        elif stream == "aborted":
+            aborted_case(ctx, drv, case["cfg"], case["b"])
     finally:
         drv.close()
     return True
